@@ -228,3 +228,71 @@ def corr_pipeline(ctx, driver, cases, results):
                     bad.append("numeric right-hand side of %s: model %s, user's text %s" % (name, val, ur))
         if bad:
             ctx.tie_break("corr:pipeline", {"case": case["indict"], "flags": case.get("flags"), "differences": bad[:8], "point": res.get("point")})
+
+
+def corr_glue(ctx, driver, cases, results, parts=("iv", "lin", "preserve")):
+    """correspondence of the glue models (Model/Glue.lean; their generated counterparts are proved equal in Proofs/RefineGlue.lean,
+    RefinePreserve.lean) with the implementation: the initial values copied into every solver dictionary and
+    SystemOfShapes.get_initial_value, the per-variable linearity flags, the preserve_expressions block."""
+    if driver is None:
+        return
+    ops, meta = [], []
+    opname = {"iv": "glue_iv", "lin": "glue_lin", "preserve": "glue_preserve"}
+    for case, res in zip(cases, results):
+        if not isinstance(res, dict) or "glue" not in res:
+            if isinstance(res, dict) and "glue_error" in res:
+                ctx.count("glue_error")
+                ctx.cov.setdefault("glue_errors", []).append(res["glue_error"])
+            continue
+        for part in parts:
+            if part in res["glue"]:
+                ops.append((opname[part], res["glue"][part]["payload"]))
+                meta.append((part, case, res["glue"][part]))
+    if not ops:
+        return
+    ans = driver.ask(ops)
+    for (part, case, g), a in zip(meta, ans):
+        ctx.count("corr_glue_" + part)
+        inp = {"indict": case["indict"], "flags": case.get("flags", {})}
+        if a.get("error") and part != "preserve":
+            ctx.tie_break("corr:glue_" + part, {"case": inp, "model": a})
+            continue
+        if part == "iv":
+            model = [[[p[:2], p[2]] for p in l] for l in a["out"]]
+            real = [[[k, v] for k, v in l] for l in g["real"]]
+            # Python writes str(None) for a missing value
+            model_n = [[[k, "None" if v is None else v] for k, v in l] for l in model]
+            if model_n != real:
+                ctx.tie_break("corr:glue_iv", {"case": inp, "model": model, "impl": real, "what": "initial values copied into the solver dictionaries"})
+            elif a["sys"] != g["sys_real"]:
+                ctx.tie_break("corr:glue_iv", {"case": inp, "model": a["sys"], "impl": g["sys_real"], "queries": g["payload"]["queries"],
+                                               "what": "SystemOfShapes.get_initial_value per state variable"})
+            else:
+                if any(len(l) for l in real):
+                    ctx.count("glue_iv_nonempty")
+        elif part == "lin":
+            if a["lin"] != g["real"]:
+                ctx.tie_break("corr:glue_lin", {"case": inp, "x": g["x"], "model": a["lin"], "impl": g["real"]})
+        else:
+            if "error" in a:
+                ctx.count("glue_preserve_error:" + str(a["error"]))
+                if a["error"] != g["real_error"]:
+                    ctx.tie_break("corr:glue_preserve", {"case": inp, "model": a, "impl_error": g["real_error"], "impl_has_result": g["real"] is not None})
+                continue
+            if g["real_error"] is not None or g["real"] is None:
+                ctx.tie_break("corr:glue_preserve", {"case": inp, "model": "accepts", "impl_error": g["real_error"]})
+                continue
+            bad = []
+            npres = 0
+            for sid, sym, text in a["ok"]:
+                if text is not None:
+                    npres += 1
+                    if g["real"][sid].get(sym) != text:
+                        bad.append({"solver": sid, "variable": sym, "model": text, "impl": g["real"][sid].get(sym)})
+            keys_model = [[sym for sid, sym, _ in a["ok"] if sid == i] for i in range(len(g["real"]))]
+            if keys_model != [list(d.keys()) for d in g["real"]]:
+                bad.append({"keys_model": keys_model, "keys_impl": [list(d.keys()) for d in g["real"]]})
+            if npres:
+                ctx.count("glue_preserved_entries", npres)
+            if bad:
+                ctx.tie_break("corr:glue_preserve", {"case": inp, "problems": bad[:4]})
